@@ -47,6 +47,7 @@ type Spec struct {
 	Bounds    map[string]string `json:"bounds"`
 	Outside   string            `json:"outside"`
 	Assume    []string          `json:"assumptions"`
+	Clock     []string          `json:"clock"` // package dirs whose time.Now() calls are rewritten for native replay
 }
 
 type KnownFinding struct {
